@@ -16,7 +16,7 @@ SPEC = {
     "design_ref": "DESIGN.md section 5, C13",
     "rule": ("cases = targets (class, instance, options) chosen so that the minimum search needs 1, 2, 3 (and 4) main-loop solver invocations "
              "(gap between lower bound and optimum 0, 1, 2), plus every k-model, MinErrorFlow (+epsilon: two solves), MinSetCover, MinGenSet and "
-             "NumPathsOptimization with each stop rule, plus every k-model class with solve() called twice on one object; inside a case: the fault-free run, then every single-deviation plan "
+             "NumPathsOptimization with each stop rule, plus every k-model class, MinGenSet, MinSetCover and the minimum flow decompositions with solve() called twice on one object; inside a case: the fault-free run, then every single-deviation plan "
              "(position x {kTimeLimit, kInterrupt, kUnknown, kSolutionLimit, kUnboundedOrInfeasible, kIterationLimit} x {solver ran, did not run} + custom-timeout flag), "
              "then (thorough) every two-deviation plan; non-trivial = distinct (target, plan) whose injected deviation was actually consumed by an invocation"),
     "assumptions": ["the library observes the solver only through SolverWrapper.optimize / get_model_status / value getters, so call granularity is complete",
@@ -145,6 +145,13 @@ def cases(tier, seed):
                 yield dict(inst, target=cls_ + "/solve-twice", cls=cls_, kw=kw_, dev=dev, resolve=True)
     for nums, total in (([1, 2, 4], 7), ([1, 2, 3, 7], 13), ([3], 5), ([2, 5], 7)):
         yield {"target": "MinGenSet", "cls": "MinGenSet", "numbers": nums, "total": total, "dev": dev}
+        yield {"target": "MinGenSet/solve-twice", "cls": "MinGenSet", "numbers": nums, "total": total, "dev": dev, "resolve": True}
+    # ... and the minimum searches solved twice (state kept between the two runs must not let the second run skip a k)
+    yield dict(HAND_DAG[1][0], target="MinFlowDecomp/solve-twice", cls="MinFlowDecomp", kw={"weight_type": "int", "optimization_options": {"optimize_with_greedy": False}}, gap=1, dev=dev, resolve=True)
+    for gap, insts in sorted(cyc.items()):
+        for inst in insts[:1]:
+            yield dict(inst, target="MinFlowDecompCycles/solve-twice", cls="MinFlowDecompCycles", kw={"weight_type": "int"}, gap=gap, dev=dev, resolve=True)
+    yield {"target": "MinSetCover/solve-twice", "cls": "MinSetCover", "universe": [0, 1, 2], "subsets": [[0, 1], [1, 2], [0], [2]], "weights": [2, 2, 1, 1], "dev": dev, "resolve": True}
     yield {"target": "MinSetCover", "cls": "MinSetCover", "universe": [0, 1, 2], "subsets": [[0, 1], [1, 2], [0], [2]], "weights": [2, 2, 1, 1], "dev": dev}
 
 
@@ -289,6 +296,16 @@ def run(case):
             # a consumed deviation on a main-loop invocation at k <= k* must stop the search
             for n in obs["consumed"]:
                 c = obs["calls"][n]
+                if case.get("resolve") and n < obs.get("calls_first_solve", 0):
+                    # the deviation hit the first solve() only; the second, clean solve() legitimately proves optimality
+                    # (its answer was compared with the fault-free optimum above)
+                    tags["resolve:first_run_faulted_second_clean"] += 1
+                    continue
+                if case.get("resolve") and case["cls"] in ("MinFlowDecomp", "MinFlowDecompCycles", "MinPathCover", "MinPathCoverCycles", "MinGenSet"):
+                    # second run of a minimum search faulted: these classes keep the proven optimum of the first run (is_solved() stays True);
+                    # what the property forbids - a larger answer - is excluded by the comparison with the fault-free optimum above
+                    tags["resolve:second_run_faulted_first_answer_kept"] += 1
+                    continue
                 if case["cls"] in ("MinFlowDecomp", "MinFlowDecompCycles", "MinPathCover", "MinPathCoverCycles", "MinGenSet"):
                     is_main = c["owner"] == main_owner and not _is_aux(case, obs["calls"], n)
                     if is_main and c["k"] is not None and kstar is not None and c["k"] <= kstar:
@@ -298,9 +315,6 @@ def run(case):
                     if obs.get("inner_forced") or obs.get("inner_status") != "kOptimal":
                         viol.append({"kind": "numpaths_returned_unproven_model", "msg": f"{ctx}: returned model (k={obs.get('inner_k')}) has status {obs.get('inner_status')} / was the faulted run", "calls": obs["calls"]})
                         break
-                elif case.get("resolve") and n < obs.get("calls_first_solve", 0):
-                    # the deviation hit the first solve() only; the second, clean solve() legitimately proves optimality
-                    tags["resolve:first_run_faulted_second_clean"] += 1
                 else:
                     # single-solve models: a consumed deviation on their only / deciding invocation must not be 'solved'
                     viol.append({"kind": "solved_after_inconclusive_run", "msg": f"{ctx}: model reports solved although its solver run {n} ended inconclusive", "calls": obs["calls"]})
